@@ -228,7 +228,9 @@ func corrC12(r *Run) {
 					"first four octets = octets written = returned count")
 			}
 		}
-		vol.marshal(t.ID, valueLine, term, err, panicked, w)
+		if tag != "/loaded-content" {
+			vol.marshal(t.ID, valueLine, term, err, panicked, w)
+		}
 		small := len(term) < 12000
 		if kernel && (small || bigBudget > 0) {
 			if !small {
@@ -292,6 +294,23 @@ func corrC12(r *Run) {
 			}
 			one(t, p, i, i < n, "")
 		}
+	}
+	// histories: one value marshalled before and after a Marshal that FAILS (every refusal kind at every field position,
+	// destinations that give up after k octets): the failed call leaves nothing behind — "on error it has written nothing",
+	// and the next frame is exactly one frame
+	for ti, t := range ts {
+		base := poisonBase(r.Rng, t)
+		for k, x := range allPoisons(t, base) {
+			b1, b2, ok := sandwich(r, "marshal", t, base, x)
+			r.Count(fmt.Sprintf("sandwich/%s/%s", t.Name, x), ok, "history/"+x.kind)
+			if ok && (k+ti)%12 == int(r.Seed%12) {
+				historyCase(r, t, base, x, b1, b2)
+			}
+		}
+	}
+	// loaded field contents (number forms x TON x NPI, dates, service types, credentials) in every string / address position
+	for k, it := range corpusPDUs(ts, 3, int(r.Seed%3)) {
+		one(it.t, it.p, 1+2*k, false, "/loaded-content")
 	}
 	// deterministic sweep of user-data headers on every type that carries a short message
 	sweep := udhSweep()
